@@ -81,6 +81,13 @@ func (d *MemDriver) script(inv Invocation) ([][]byte, error) {
 	return out, err
 }
 
+// setConsumed: the driver may be used by several goroutines at once (the monitors that read Consumed use it from one).
+func (d *MemDriver) setConsumed(n int) {
+	d.mu.Lock()
+	d.Consumed = n
+	d.mu.Unlock()
+}
+
 func (d *MemDriver) done(request []byte) {
 	if d.Scribble {
 		for i := range request {
@@ -99,7 +106,7 @@ func (d *MemDriver) Broadcast(addr *net.UDPAddr, request []byte) ([][]byte, erro
 	if err != nil {
 		return nil, err
 	}
-	d.Consumed = len(list)
+	d.setConsumed(len(list))
 	return list, nil
 }
 
@@ -113,13 +120,13 @@ func (d *MemDriver) BroadcastTo(addr *net.UDPAddr, request []byte, callback func
 	if len(request) > 1 && request[1] == 0x96 {
 		return nil, nil
 	}
-	d.Consumed = 0
-	for _, b := range list {
-		d.Consumed++
+	for i, b := range list {
 		if callback(b) {
+			d.setConsumed(i + 1)
 			return b, nil
 		}
 	}
+	d.setConsumed(len(list))
 	return nil, ErrTimeout
 }
 
@@ -133,11 +140,11 @@ func (d *MemDriver) first(method string, addr fmt.Stringer, request []byte) ([]b
 	if len(request) > 1 && request[1] == 0x96 {
 		return nil, nil
 	}
-	d.Consumed = 0
 	if len(list) == 0 {
+		d.setConsumed(0)
 		return nil, ErrTimeout
 	}
-	d.Consumed = 1
+	d.setConsumed(1)
 	return list[0], nil
 }
 
